@@ -43,9 +43,9 @@ type vgStep struct {
 	Def      string `json:"def"`
 	FailDial int    `json:"faildial"` // k-th dial of this operation fails (0 = none)
 	E        string `json:"e"`
-	Name     string `json:"name"` // rpc: MultiEndpoint name in the context ("" = none)
+	Name     string `json:"name"`   // rpc: MultiEndpoint name in the context ("" = none)
 	Stream   bool   `json:"stream"` // rpc: issued as a stream (NewStream) instead of a unary call (Invoke)
-	N        int    `json:"n"`    // tick: virtual milliseconds
+	N        int    `json:"n"`      // tick: virtual milliseconds
 	// conc: RPCs and one reconfiguration run as goroutines, stepped gate to gate (gme.mu) in the order given by Sched
 	Procs []vgStep `json:"procs"`
 	Sched []int    `json:"sched"`
